@@ -379,7 +379,31 @@ class Proto:
                 break
             prev_sig = sig
         self.rounds = rnd + 1
+        self._check_external_handover(fns)
         return self
+
+    def _check_external_handover(self, fns):
+        """A closure that takes or gives up the queue token is only understood when the analysis sees who calls it (a stored job, a
+        closure parameter of an in-crate function).  When such a closure is run by an out-of-crate higher-order function (an iterator
+        adaptor, Option::map ...) the caller's token state after the call is unknown: the dependent rules must not decide."""
+        for f in fns:
+            if not f.is_closure or f.is_coroutine or not f.parent:
+                continue
+            summ = self.summ.get(f.name) or ()
+            if not any(T in ('H', 'R') for (T, P, ret) in summ) or f.name in self.requires_held:
+                continue
+            parent = self.facts.fn(f.parent)
+            if not parent:
+                continue
+            for bb, t in parent.calls():
+                name = t['func'].get('fn') or ''
+                if self.facts.fn(name) or (t.get('resolved_local') and self.facts.fn(t.get('resolved') or '')):
+                    continue
+                if name in ('alloc::boxed::Box::new', 'alloc::sync::Arc::new'):
+                    continue
+                for a in t['args']:
+                    if a['k'] != 'const' and clean_ty(a['pl']['ty']).replace('&mut ', '').replace('&', '') == '{closure:%s}' % f.name:
+                        self.problems.append('closure %s takes or releases the queue token and is run by %s: the hand-over to its caller is not modelled' % (short(f.name), name))
 
     @staticmethod
     def _takes_core(fn):
